@@ -1,4 +1,5 @@
 import PysnarkModel.Lemmas.FxpValues
+import PysnarkModel.Lemmas.FxpRunProg
 import PysnarkModel.Spec.R1CS
 /-!
 # C14 — fixed-point operations equal exact scaled-integer arithmetic
@@ -118,5 +119,167 @@ example :
   refine ⟨by decide +kernel, by decide +kernel, by decide +kernel⟩
 
 example : Plain (St.init 97 8 8) := ⟨rfl, rfl⟩
+
+/-! ## program level: composition over whole programs (`Spec/FxpProg.lean`)
+
+The reference interpreter `fxRun` runs the instruction language of `Model/Prog.lean` on EXACT
+RATIONALS: an integer-kind register holds a Python int, a fixed-point register holds the
+represented rational, a float literal is converted as `add_scaling` does (truncation of `f·2^r`),
+fixed-point × fixed-point and every quotient are floored to the grid `2^-r`, `//` and `%` are
+Python's on the rationals, comparisons are those of the rationals, `val()` returns the rational,
+`x << n` / `x >> n` multiply / divide by `2^n` (flooring to the grid), a zero divisor is `raises`.
+
+`FxpFragment s0 prog` (decidable, a replay of the run) excludes by name (`FxExcl`):
+`guardRegion` (C07's subject), `ignoreErrors` (`set ign`), `resAfterFxp` (`set res` while a register
+holds a fixed-point value: the library does not rescale), `lincombStrictCompareFxp` (the recorded
+deviation C14-lincomb-strict-compare-fxp), `secretLiteral`, `negativeShift` (C05-rshift-negative),
+`secretShift` (C05-secret-exponent-mod-p), `fxpPow`, `operandKind`, `boolOperand`, `integerBitOp`,
+`unaryOther`, `otherMethod`, `containerSelect`, `secretIndex` (all: outside the statement of C14,
+subjects of C03/C05/C09/C15/C16).
+-/
+
+/-- **C14 for whole programs.**  For every modulus `p` (in particular every prime), bit length,
+initial resolution, every program of the fragment and every run that completes: the reference run
+completes as well (it neither `raises` nor leaves the statement), and at the resolution `r` in
+force at the end every register is related to its reference value (`fxRelL`): the representation
+of a fixed-point register is exactly (reference rational)·2^r, an integer or boolean register
+carries the reference integer, a float the reference rational, containers element-wise. -/
+theorem C14_program (p : Int) (bl res : Nat) (prog : List Instr)
+    (hfrag : FxpFragment (St.init p bl res) prog)
+    (out : Out) (hout : run (St.init p bl res) prog = out) (herr : out.err = none) :
+    ∃ refs, fxRun res prog = .val refs ∧ fxRelL out.st.resolution out.regs refs = true :=
+  fx_run_fx p bl res prog hfrag out hout herr
+
+/-- the relation read at one fixed-point register: representation = (reference rational)·2^r -/
+theorem C14_program_fxp {r : Nat} {regs : List Val} {refs : List FxV}
+    (h : fxRelL r regs refs = true) {i : Nat} {x : LinComb} (hx : regs[i]? = some (.fxp x)) :
+    ∃ q : ℚ, refs[i]? = some (.fx q) ∧ (x.value : ℚ) = q * 2 ^ r := by
+  obtain ⟨w, hw, hr⟩ := fxRelL_at h hx
+  obtain ⟨q, rfl, hq⟩ := fxRel_fxp_iff.mp hr
+  exact ⟨q, hw, hq⟩
+
+/-- … at an integer register, a boolean register, a float returned by `val()` -/
+theorem C14_program_int {r : Nat} {regs : List Val} {refs : List FxV}
+    (h : fxRelL r regs refs = true) {i : Nat} :
+    (∀ x, regs[i]? = some (.lc x) → refs[i]? = some (.sint x.value)) ∧
+    (∀ x, regs[i]? = some (.lcb x) → refs[i]? = some (.sbool x.value) ∧ (x.value = 0 ∨ x.value = 1)) ∧
+    (∀ c, regs[i]? = some (.int c) → refs[i]? = some (.int c)) ∧
+    (∀ m e, regs[i]? = some (.flt m e) → refs[i]? = some (.flt ((m : ℚ) / 2 ^ e))) := by
+  refine ⟨fun x hx => ?_, fun x hx => ?_, fun c hx => ?_, fun m e hx => ?_⟩
+  · obtain ⟨w, hw, hr⟩ := fxRelL_at h hx
+    rw [fxRel_lc_iff.mp hr] at hw; exact hw
+  · obtain ⟨w, hw, hr⟩ := fxRelL_at h hx
+    obtain ⟨rfl, hb⟩ := fxRel_lcb_iff.mp hr
+    exact ⟨hw, hb⟩
+  · obtain ⟨w, hw, hr⟩ := fxRelL_at h hx
+    rw [fxRel_int_iff.mp hr] at hw; exact hw
+  · obtain ⟨w, hw, hr⟩ := fxRelL_at h hx
+    rw [fxRel_flt_iff.mp hr] at hw; exact hw
+
+/-- closed evaluation by the kernel; a failing instance reports quickly (no elaborator re-evaluation) -/
+macro "fxdec" : tactic =>
+  `(tactic| first
+    | decide +kernel
+    | fail "fxdec: the kernel does not evaluate this closed proposition to `true`")
+
+/-- `PrivVal(2) < PrivValFxp(2.5)` as a program -/
+def fxCexProg : List Instr :=
+  [.lit (.int 2), .mk .priv 0, .lit (.flt 5 1), .mk .privx 2, .bin .lt 1 3]
+
+/-- the recorded deviation is what the fragment excludes: the closed program
+`PrivVal(2) < PrivValFxp(2.5)` at resolution 8 completes, is rejected by `FxpFragment` with the
+reason `lincombStrictCompareFxp`, and its result (0) differs from the reference (1) -/
+theorem C14_cex_program_lincomb_lt_fxp :
+    (run (St.init 97 8 8) fxCexProg).err = none ∧
+    fxFirstExcl fxCexProg 0 [] [] (St.init 97 8 8) = some (4, .lincombStrictCompareFxp) ∧
+    (match (run (St.init 97 8 8) fxCexProg).regs[4]?, fxRun 8 fxCexProg with
+     | some (Val.lcb r), FxRes.val refs =>
+       r.value == 0 && (match refs[4]? with | some (FxV.sbool 1) => true | _ => false)
+     | _, _ => false) = true := by
+  fxdec
+
+/-! ### non-vacuity of `C14_program` -/
+
+/-- the prime `2^61 - 1` -/
+def fxP61 : Int := 2 ^ 61 - 1
+
+/-- 31 instructions at resolution 8, bit length 40, over `p = 2^61 - 1`, mixing plain ints, float
+literals, integer secrets and fixed-point secrets in both operand orders:
+`+ - * / // % < <= >`, selection, `val()`, `>> <<`, unary `-`, `abs`, a container and indexing -/
+def fxDemoProg : List Instr := [
+  .lit (.flt 5 1),        -- r0  = 2.5
+  .mk .privx 0,           -- r1  = PrivValFxp(2.5)            rep 640
+  .lit (.flt 3 1),        -- r2  = 1.5
+  .mk .pubx 2,            -- r3  = PubValFxp(1.5)             rep 384
+  .lit (.int 3),          -- r4  = 3
+  .mk .priv 4,            -- r5  = PrivVal(3)
+  .bin .add 1 3,          -- r6  = r1 + r3           = 4
+  .bin .sub 6 2,          -- r7  = r6 - 1.5 (float)  = 2.5
+  .bin .mul 1 3,          -- r8  = r1 * r3           = 3.75   rep 960
+  .bin .mul 8 5,          -- r9  = r8 * PrivVal(3)   = 11.25  (exact)
+  .bin .truediv 1 3,      -- r10 = 2.5 / 1.5         = 213/128 (⌊426.67⌋/256)
+  .bin .truediv 4 3,      -- r11 = 3 (int) / r3      = 2
+  .bin .floordiv 9 3,     -- r12 = 11.25 // 1.5      = 7
+  .bin .mod 9 3,          -- r13 = 11.25 % 1.5       = 0.75
+  .bin .lt 10 2,          -- r14 = r10 < 1.5 (float) = 0
+  .bin .le 5 1,           -- r15 = PrivVal(3) <= 2.5 = 0   (integer secret on the left: <= is right)
+  .bin .gt 1 4,           -- r16 = 2.5 > 3 (int)     = 0
+  .ite 14 1 5,            -- r17 = if r14 then r1 else PrivVal(3)  = 3 (as fixed point)
+  .call .val 17 [],       -- r18 = r17.val()         = 3.0
+  .lit (.int 2),          -- r19 = 2
+  .bin .rshift 9 19,      -- r20 = r9 >> 2           = 45/16
+  .bin .lshift 1 19,      -- r21 = r1 << 2           = 10
+  .un .neg 13,            -- r22 = -0.75
+  .un .abs 22,            -- r23 = 0.75
+  .lit (.flt (-37) 4),    -- r24 = -2.3125
+  .mk .privx 24,          -- r25 = PrivValFxp(-2.3125)        rep -592
+  .bin .mul 25 2,         -- r26 = r25 * 1.5 (float) = -111/32 (⌊-3.46875·256⌋/256)
+  .list [1, 5, 14],       -- r27 = [r1, r5, r14]
+  .idx 27 0,              -- r28 = r27[0]            = 2.5
+  .bin .sub 4 25,         -- r29 = 3 (int) - r25     = 85/16
+  .bin .ge 29 7]          -- r30 = r29 >= r7         = 1
+
+/-- the demonstration program is in the fragment, its run completes, and the reference values are
+the ones listed (so the hypotheses of `C14_program` are satisfiable and its conclusion says
+something) -/
+example : FxpFragment (St.init fxP61 40 8) fxDemoProg ∧
+    (run (St.init fxP61 40 8) fxDemoProg).err = none := by
+  fxdec
+
+/-- reference values of the fixed-point registers of the demonstration program, as exact rationals -/
+example :
+    (match fxRun 8 fxDemoProg with
+     | .val refs =>
+       refs.filterMap (fun w => match w with | .fx q => some q | _ => Option.none) ==
+         [5/2, 3/2, 4, 5/2, 15/4, 45/4, 213/128, 2, 7, 3/4, 3, 45/16, 10, -3/4, 3/4, -37/16, -111/32,
+          5/2, 85/16] &&
+       refs.filterMap (fun w => match w with | .sbool b => some b | _ => Option.none) == [0, 0, 0, 1] &&
+       refs.filterMap (fun w => match w with | .flt q => some q | _ => Option.none) ==
+         [5/2, 3/2, 3, -37/16]
+     | _ => false) = true := by
+  fxdec
+
+/-- … and the model's registers are related to them (the conclusion of `C14_program`, evaluated) -/
+example :
+    (match fxRun 8 fxDemoProg with
+     | .val refs => fxRelL 8 (run (St.init fxP61 40 8) fxDemoProg).regs refs
+     | _ => false) = true := by
+  fxdec
+
+/-- the model's representations of the same registers: (reference rational)·2^8 -/
+example :
+    ((run (St.init fxP61 40 8) fxDemoProg).regs.filterMap
+      (fun v => match v with | .fxp x => some x.value | _ => Option.none)) =
+      [640, 384, 1024, 640, 960, 2880, 426, 512, 1792, 192, 768, 720, 2560, -192, 192, -592, -888,
+       640, 1360] := by
+  fxdec
+
+/-- the reference raises on a zero divisor (and the model raises too) -/
+example :
+    (match fxRun 8 [.lit (.flt 5 1), .mk .privx 0, .lit (.int 0), .mk .privx 2, .bin .truediv 1 3] with
+     | FxRes.raises => true | _ => false) = true ∧
+    ((run (St.init fxP61 40 8)
+      [.lit (.flt 5 1), .mk .privx 0, .lit (.int 0), .mk .privx 2, .bin .truediv 1 3]).err.isSome) = true := by
+  fxdec
 
 end Pysnark
